@@ -87,6 +87,15 @@ def plan(seed, subbatch):
         # the whole filled series is then converted, whatever the schedule
         ctype = "HA"
         fired["heikin_ashi_configured"] += 1
+    if ctype and sub_rng(seed, "zero-close").random() < 0.35:
+        # one candle closing at exactly 0.0 (a legal float): the fill after it is flat at 0, whatever the schedule
+        zr = sub_rng(seed, "zero-close-at")
+        cands = [(op, j) for op in ([{"candles": pre}] + ops) for j in range(len(op.get("candles") or []))]
+        if cands:
+            op_, j = zr.choice(cands)
+            r = op_["candles"][j]
+            op_["candles"][j] = [r[0], r[1], r[2], 0.0, 0.0, r[5]]
+            fired["candle_closing_at_zero"] += 1
     return {"format": 1, "property": ID, "seed": seed, "subbatch": subbatch,
             "config": {"sim_now": planlib.pick_sim_now(sub_rng(seed, "sim-now"), rows), "process_tz": env[0] if env else None, "route": route, "tf": tf, "base_s": base_s, "lifespan_s": lifespan, "ctype": ctype,
                        "utc_offset_min": cfg.choice((None, None, None, None, 0, 60, 345))},
